@@ -147,7 +147,9 @@ def seq_bound(k, budget):
 def gen_instances(seed, si, tier):
     """-> (schema, builder, validator, [[family, label, El, Result], ...]) ; deterministic in (seed, si, tier)"""
     r = core.rng(seed, PID, 'schema', si)
-    s = xg.gen_schema(r)
+    # every eighth schema exercises two wildcards over one namespace (deterministic only through counting)
+    # ... and every eighth an all group (rare constructs must be present in every run, also in the small quick tier)
+    s = xg.gen_schema(r, {'twowild': True, 'content': 'elements', 'all': False} if si % 8 == 5 else {'all': True, 'content': 'elements', 'twowild': False} if si % 8 == 3 else None)
     bld = xg.Builder(s)
     val = xg.Validator(s)
     info = s.info
@@ -162,16 +164,18 @@ def gen_instances(seed, si, tier):
 
     # A: exhaustive child sequences
     for ri, (rname, rd) in enumerate(info['roots']):
-        variants = [(rd, rd.type, None)]
+        variants = [(rd, rd.type, None, None)]
         if rname == 'r':
             for dt in info['derived']:
-                variants.append((rd, dt, dt.key))
-        for vi, (decl, t, xtype) in enumerate(variants):
+                variants.append((rd, dt, dt.key, None))
+        if rd.nillable:
+            variants.append((rd, rd.type, None, 'true'))        # nilled: only the empty sequence is valid
+        for vi, (decl, t, xtype, nil) in enumerate(variants):
             alpha = xg.alphabet(s, t, bld)
             syms = sorted(alpha)
-            b = budget if (ri == 0 and vi == 0) else budget // 4
+            b = budget if (ri == 0 and vi == 0) else budget // 4 if nil is None else 60
             L = max(2, seq_bound(len(syms), b))
-            base = xg.El(decl.ns, decl.local, xtype=xtype)
+            base = xg.El(decl.ns, decl.local, xtype=xtype, nil=nil)
             if not t.simple:
                 for key, u in t.attrs.items():
                     if u.use == 'required':
@@ -184,9 +188,9 @@ def gen_instances(seed, si, tier):
                     count += 1
                     e = base.copy()
                     e.kids = [alpha[x].copy() for x in seq]
-                    add('seq', '%s%s:%s' % (rname, '^' + xtype[1] if xtype else '', ' '.join(seq)), e)
+                    add('seq', '%s%s%s:%s' % (rname, '^' + xtype[1] if xtype else '', '^nil' if nil else '', ' '.join(seq)), e)
             # B: neighbours of random valid words
-            if not t.simple and t.content == 'elements' and t.particle is not None:
+            if nil is None and not t.simple and t.content == 'elements' and t.particle is not None:
                 nwords = 5 if tier == 'quick' else 14
                 for wi in range(nwords):
                     word = xg.rand_word(t.particle, r, big=(wi % 3 == 2))
@@ -686,15 +690,19 @@ def mk_case(cid, cfg, ents, data, dump=1):
 
 # ---------------------------------------------------------------------------------------------------------------------
 def stage_generated(ck, binary, tier, nproc, cov):
-    nschemas = int(os.environ.get('XV_C08_N', 40 if tier == 'quick' else 700))     # XV_C08_N: development knob
-    chunk = 40 if tier == 'quick' else 50
+    nschemas = int(os.environ.get('XV_C08_N', 32 if tier == 'quick' else 600))     # XV_C08_N: development knob
+    chunk = 32 if tier == 'quick' else 50
     stats, fam, rules_seen, tags, codes, cfg_seen, skipped = (cov[k] for k in ('stats', 'fam', 'rules', 'tags', 'codes', 'cfg', 'skipped'))
     shapes = cov['shapes']
     sampled = [0]
     shr = Shrinker(ck, binary, tier, nproc)
     with ProcessPoolExecutor(nproc) as ex:
+        only = [int(x) for x in os.environ.get('XV_C08_SI', '').split(',') if x]      # development knob: explicit schema indices
         for c0 in range(0, nschemas, chunk):
-            works = list(ex.map(_work, [(ck.seed, si, tier) for si in range(c0, min(nschemas, c0 + chunk))]))
+            sis = list(range(c0, min(nschemas, c0 + chunk))) if not only else (only if c0 == 0 else [])
+            if not sis:
+                break
+            works = list(ex.map(_work, [(ck.seed, si, tier) for si in sis]))
             cases = []
             meta = {}
             for w in works:
@@ -749,7 +757,7 @@ def stage_generated(ck, binary, tier, nproc, cov):
                         continue
                     schema_err = [e for e in st.errs if e[0] in ('E', 'F') and not (e[5] or '').endswith('doc.xml')]
                     if schema_err:
-                        ck.violation('C08:rejected-valid-schema:%s:code%d%s' % (schema_err[0][1], schema_err[0][2], ':full' if cfg[3] else ''),
+                        ck.violation('C08:rejected-valid-schema:%s:code%d' % (schema_err[0][1], schema_err[0][2]),
                                      'a generated (valid, UPA-clean) schema was reported as erroneous', {'case': c.to_json(), 'errs': schema_err[:4], 'tags': w['tags']})
                         continue
                     bad, fatal, posd = step_classes(st)
@@ -899,7 +907,7 @@ def stage_broken(ck, binary, nproc, cov):
             ck.add_distinct(core.h('bs', name, variant, cfg))
 
 
-def stage_xsts(ck, binary, nproc, cov):
+def stage_xsts(ck, binary, nproc, cov, tier='quick'):
     stats, skipped = cov['stats'], cov['skipped']
     root, tests = xsts_cases()
     cases = []
@@ -909,6 +917,9 @@ def stage_xsts(ck, binary, nproc, cov):
         return 'file:///xv/' + os.path.normpath(h).replace(os.sep, '/')
     for (g, name, kind, hrefs, expected, schemas) in tests:
         if expected not in ('valid', 'invalid'):
+            continue
+        if tier == 'quick' and g.startswith('XERCESC-1051'):
+            skipped['xsts-slow-large-maxOccurs(quick tier; documented limitation)'] += 1
             continue
         ents = xsts_ents(root, hrefs[0])
         if sum(len(d) for _, d in ents) > 3000000:
@@ -974,7 +985,7 @@ def run(tier):
     if 'broken' in stages:
         stage_broken(ck, binary, nproc, cov)
     if 'xsts' in stages:
-        stage_xsts(ck, binary, nproc, cov)
+        stage_xsts(ck, binary, nproc, cov, tier)
     rules_seen, tags = cov['rules'], cov['tags']
     ck.rule = ('distinct (schema, instance) pairs whose verdict was decided by the reference validator and agreed; every instance is non-trivial in that it exercises the focus type '
                '(exhaustive child sequences to a per-alphabet bound, neighbours of valid words, attribute subsets, random trees and single-rule mutants); plus broken/repaired schema twins and XSTS regression tests')
